@@ -150,6 +150,13 @@ def finish(name, src, meta, res, keep):
          "demo_note": "demo files are stored with a .txt suffix so they are not compiled from /verif; drop the suffix when placing them",
          "author_report": {k: meta.get(k) for k in ("demo_result_with_patch", "demo_result_without_patch", "stock_tests_run")},
          "what_we_ran": res}
+    try:
+        prev = json.load(open(os.path.join(d, "meta.json")))
+        for k in ("first_result", "why_missed_and_what_changed", "round"):
+            if k in prev:
+                m[k] = prev[k]
+    except Exception:
+        pass
     json.dump(m, open(os.path.join(d, "meta.json"), "w"), indent=1)
     print(json.dumps({k: v for k, v in res.items() if not k.endswith("_tail")}, indent=1)[:1500])
     return 0 if ok else 1
